@@ -70,6 +70,9 @@ type raceState struct {
 	seen    map[string]bool
 	harness map[*ssa.Function]bool
 	epoch   int
+	// statistics for the evidence
+	accesses, syncOps int64
+	maxGoroutines     int
 }
 
 // RaceOn enables race detection for the paths run by this interpreter.
@@ -116,6 +119,7 @@ func (it *Interp) raceAcquire(key any) {
 	if it.race == nil || it.cur == nil {
 		return
 	}
+	it.race.syncOps++
 	it.cur.vc.join(*it.raceSyncVar(key))
 }
 
@@ -124,6 +128,7 @@ func (it *Interp) raceRelease(key any) {
 		return
 	}
 	g := it.cur
+	it.race.syncOps++
 	it.raceSyncVar(key).join(g.vc)
 	g.vc.set(g.id, g.vc.get(g.id)+1)
 }
@@ -207,6 +212,10 @@ func (it *Interp) raceReport(what string, prev raceAccess, prevWrite bool, cur r
 
 func (it *Interp) raceCheck(sh *slotShadow, what func() string, write bool) {
 	g := it.cur
+	it.race.accesses++
+	if len(it.gs) > it.race.maxGoroutines {
+		it.race.maxGoroutines = len(it.gs)
+	}
 	fn, pos := it.raceSite()
 	me := raceAccess{gid: g.id, clk: g.vc.get(g.id), fn: fn, pos: pos}
 	if sh.w.gid != 0 && sh.w.gid != g.id && sh.w.clk > g.vc.get(sh.w.gid) {
